@@ -3,5 +3,3 @@ CONSTANT MW = 2
 CONSTANT RICH = 0
 INIT Init
 NEXT Next
-INVARIANT Theorems
-INVARIANT Emit
